@@ -37,6 +37,14 @@ def step (_ : Unit) (line : String) : Unit × String :=
       | none => "bad-op"
     | ["b64decraw", h] => match parseHex h with
       | some s => toHex (b64decodeRaw s) | none => "bad-op"
+    | "fltN" :: kind :: ps => match ps.mapM parseHex with
+      | some l =>
+        let whole := l.flatten
+        if kind == "escape" then toHex (escape whole)
+        else if kind == "urlencode" then toHex (urlencode whole)
+        else if kind == "base64" then toHex (b64encodeStr whole)
+        else "bad-op"
+      | none => "bad-op"
     | "form" :: _ => "form-no-model"
     | ["encsize", n] => match n.toNat? with
       | some k => optNat (Gen.encodedSize k) | none => "bad-op"
